@@ -75,3 +75,20 @@ Definition ok_op (o : op) : Prop :=
   | ONum u _ => 0 <= u < two64
   | _ => True
   end.
+
+(* ---- appends from the builder's own text (Model.xop): the slice is taken from the abstract text ---- *)
+Definition aresolve (a : abs) (x : xop) : op :=
+  match x with
+  | XOp o => o
+  | XSelf off n => OBytes (slice (atext a) off n)
+  | XSelfC off => OCstr (suffix (atext a) off)
+  end.
+Fixpoint arun_xops (a : abs) (xs : list xop) : list Z * abs :=
+  match xs with
+  | [] => ([], a)
+  | x :: r => let '(e, a1, cut) := astep a (aresolve a x) in
+              let '(out, a2) := arun_xops a1 r in (aobserve e a1 cut ++ out, a2)
+  end.
+Definition arun_x (k cap : Z) (ini : list Z) (xs : list xop) : list Z :=
+  let a := ainit k cap ini in aobserve 0 a false ++ fst (arun_xops a xs).
+Definition ok_xop (x : xop) : Prop := match x with XOp o => ok_op o | _ => True end.
